@@ -36,6 +36,7 @@ LoadTask(pid, r, x, old, isNew, oldts) ==
       cre == Count(r.gens, LAMBDA g : g.what = "message" /\ g.pid = pid /\ g.t = k /\ g.state = "created")
       trm == Count(r.gens, LAMBDA g : g.what = "message" /\ g.pid = pid /\ g.t = k /\ IsDone(g.state))
       okact == r.a = "Act" /\ r.res = "ok" /\ r.pid = pid /\ r.t = k /\ r.kind \in TerminalKinds
+               /\ IsDone(x.st)      \* (an error taken by the act's own catch re-opens it)
       errw == SelectSeq(r.ws, LAMBDA w : w.kind # "proc" /\ w.pid = pid /\ w.t = k /\ w.new = "error")
       revs == Count(r.ws, LAMBDA w : w.kind # "proc" /\ w.pid = pid /\ w.t = k
                                       /\ w.old = "error" /\ w.new = "running")
